@@ -28,6 +28,7 @@ type attemptOpts struct {
 	scribble     bool // handler overwrites every delivered byte slice after snapshotting
 	deep         bool // keep deep snapshots for the stability check
 	refuse       string
+	cancelOnFail bool // the failing handler call cancels the caller's context first
 }
 
 func defaultOpts() attemptOpts {
@@ -166,6 +167,9 @@ func runAttempt(s *gobinlog.Streamer, m *simMaster, h *hist, mapper *tblMapper, 
 			cancel()
 		}
 		if o.failAt == i {
+			if o.cancelOnFail {
+				cancel()
+			}
 			return fmt.Errorf("handler failure (injected)")
 		}
 		res.accepted = append(res.accepted, txt)
@@ -201,12 +205,21 @@ func runAttempt(s *gobinlog.Streamer, m *simMaster, h *hist, mapper *tblMapper, 
 	}
 	done := make(chan error, 1)
 	t0 := time.Now()
-	go func() { done <- s.Stream(ctx, handler) }()
+	go func() {
+		defer func() {
+			if r := recover(); r != nil {
+				done <- fmt.Errorf("PANIC in Stream: %v", r)
+			}
+		}()
+		done <- s.Stream(ctx, handler)
+	}()
 	select {
 	case err := <-done:
 		atomic.StoreInt32(&returned, 1)
 		res.streamDur = time.Since(t0)
-		if err != nil {
+		if err != nil && strings.HasPrefix(err.Error(), "PANIC in Stream") {
+			res.streamRet = "panic:" + err.Error()
+		} else if err != nil {
 			res.streamRet = "err:" + err.Error()
 		} else {
 			res.streamRet = "nil"
